@@ -324,10 +324,16 @@ Fixpoint mrun (c : cfg) (ms : list mstep) (s : state) : option state :=
    while every other thread was parked). *)
 Inductive oev :=
 | OClaim (t : nat) (inplace : bool) (hm : nat) (od : bool) (p : option plan) (snap : list rec)
+         (pre : list rec)  (* the records stored under the claimed keys when the selection step began
+                              (read while every other thread was parked); [] = not observed *)
 | OPatched (t : nat) (res : list (N * N))   (* PatchExpired finished its patches: (key, status) *)
 | OReidx (t : nat) (ks : list N)            (* PatchExpired t ran its final re-index over its selection ks *)
 | OPut (k : N)                              (* a writer created or re-scheduled key k *)
 | ODel (k : N).                             (* a writer's Delete of k succeeded *)
+
+(* same stored record: key, body fields and expiry *)
+Definition rec_same (a b : rec) : bool :=
+  N.eqb (rk a) (rk b) && N.eqb (rst a) (rst b) && N.eqb (rgrp a) (rgrp b) && Z.eqb (rexp a) (rexp b).
 
 Fixpoint sorted_exp (l : list rec) : bool :=
   match l with
@@ -342,11 +348,12 @@ Fixpoint nodupN (l : list N) : bool :=
    flight; dead: keys deleted by a writer and not re-put since.
    codes: 12 same key to two claimers; 13 claimed record did not satisfy the criteria at claim
    time; 14 a deleted key was returned / patched; 15 a deleted key is present at the end;
-   16 more than HowMany or not in index order; 17 see below *)
+   16 more than HowMany or not in index order; 17 see below; 18 a returned record is not the
+   record that was stored under its key when it was claimed (a deleted treasure object was handed out) *)
 Fixpoint oracle (taken : list N) (fl : list (nat * N)) (dead ri : list N) (evs : list oev) (final : list N) : N :=
   match evs with
   | [] => if existsb (fun k => memN k final) dead then 15%N else 0%N
-  | OClaim t inplace hm od p snap :: r =>
+  | OClaim t inplace hm od p snap pre :: r =>
       let keys := map rk snap in
       let dup k := memN k taken || existsb (fun q => N.eqb (snd q) k) fl in
       if negb (nodupN keys) || existsb dup keys then
@@ -354,6 +361,7 @@ Fixpoint oracle (taken : list N) (fl : list (nat * N)) (dead ri : list N) (evs :
            this in-place claim was in flight (recorded open finding); 12: any other double claim *)
         (if forallb (fun k => negb (dup k) || memN k ri) keys && nodupN keys then 17%N else 12%N)
       else if negb (forallb (crit od p) snap) then 13%N
+      else if negb (match pre with [] => true | _ => list_eqb rec_same snap pre end) then 18%N
       else if existsb (fun k => memN k dead) keys then 14%N
       else if Nat.ltb hm (length snap) || negb (sorted_exp snap) then 16%N
       else if inplace then oracle taken (fl ++ map (fun k => (t, k)) keys) dead ri r final
